@@ -186,6 +186,13 @@ class SpecMixin:
         if name in ("set_has", "dq_len", "dq_maxlen", "dq_at", "dq_idx", "dq_lo", "dq_hi", "dq_at_pos", "dq_pos_of"):
             yield st, self.spec_container_form(st, name, args)
             return
+        if name == "model":
+            # a value computed by the collaborator model named in the contract's engine_setup (e.model_fns)
+            fn = getattr(self, "model_fns", {}).get(args[0].s)
+            if fn is None:
+                raise SpecError(f"model({args[0].s!r}): no such model function")
+            yield st, fn(self, st, args[1:])
+            return
         if name in ("map_has", "map_get", "map_key0"):
             from .models import _map_entries, _map_find
             m = args[0]
